@@ -20,6 +20,7 @@ Whole executions follow by induction on the number of block transitions
 import EtkVerif.Cfg.Lemmas
 import EtkVerif.Annot.Total
 import EtkVerif.Cfg.Pipeline
+import EtkVerif.Evm.Cancun
 namespace EtkVerif.C05
 open Annot Smt Cfg Evm
 
@@ -102,5 +103,71 @@ theorem C05_jumpdests (code : List Nat) (hb : ∀ b ∈ code, b < 256) :
     ∀ d : Nat, (∃ b ∈ Pipeline.blocks code, b.offset = d ∧ ∃ i, b.ops.head? = some i ∧ i.op = 0x5b) ↔
                (∃ imm, (d, (⟨0x5b, imm⟩ : Disasm.Instr)) ∈ (Disasm.decodeAll Gen.cancun code).1) :=
   Pipeline.pipeline_jumpdests code hb
+
+/-! ### Scope: etk's Cancun table vs. real Cancun
+
+`execBlock` follows the opcode set of etk's own Cancun table, which lacks the real
+Cancun opcodes 0x49 BLOBHASH, 0x4a BLOBBASEFEE, 0x5c TLOAD, 0x5d TSTORE
+(`Evm.missingOps`); etk and `execBlock` treat them as invalid = halting.  Against the
+REAL Cancun semantics `execBlockC` (`Evm/Cancun.lean`) the theorems above hold for
+blocks that contain none of the four opcodes, and fail otherwise. -/
+
+theorem C05_initial_cancun (t : OpTable) (bs : List Blocks.Block) (anns : List Annotated) (hS : Setup t bs anns)
+    (g : Graph) (hg : cfgNew anns = .ok g)
+    (i : Nat) (b : Blocks.Block) (a : Annotated) (hb : bs[i]? = some b) (ha : anns[i]? = some a)
+    (hm : ∀ x ∈ b.ops, x.op ∉ Evm.missingOps)
+    (E : Env) (ω : Nat → Word) (entry : List Word) (hd : a.inputs ≤ entry.length)
+    (o : Outcome) (ho : execBlockC E ω b.ops b.offset 0 entry = some o) :
+    (i, successor anns o) ∈ g.edges := by
+  rw [execBlockC_eq E ω b.ops b.offset 0 entry hm] at ho
+  exact C05_initial t bs anns hS g hg i b a hb ha E ω entry hd o ho
+
+theorem C05_refined_cancun (t : OpTable) (bs : List Blocks.Block) (anns : List Annotated) (hS : Setup t bs anns)
+    (g g' : Graph) (hg : cfgNew anns = .ok g)
+    (sat : List BTerm → Bool) (hsat : SoundSat sat) (hr : refine sat g = .ok g')
+    (i : Nat) (b : Blocks.Block) (a : Annotated) (hb : bs[i]? = some b) (ha : anns[i]? = some a)
+    (hm : ∀ x ∈ b.ops, x.op ∉ Evm.missingOps)
+    (E : Env) (ω : Nat → Word) (entry : List Word) (hd : a.inputs ≤ entry.length)
+    (o : Outcome) (ho : execBlockC E ω b.ops b.offset 0 entry = some o) :
+    (i, successor anns o) ∈ g'.edges := by
+  rw [execBlockC_eq E ω b.ops b.offset 0 entry hm] at ho
+  exact C05_refined t bs anns hS g g' hg sat hsat hr i b a hb ha E ω entry hd o ho
+
+/-- Without `hm`, `C05_initial_cancun` / `C05_refined_cancun` are false.  The valid Cancun
+program `push1 0; tload; push1 6; jump; jumpdest; stop` (bytes 60 00 5c 60 06 56 5b 00):
+the model of etk's pipeline splits it into three blocks (offsets 0, 3, 6), block 0 being
+`push1 0; tload` because etk takes 0x5c for an invalid instruction; every hypothesis of
+`C05_initial` holds (`Setup`, `cfgNew` succeeds, block 0 declares 0 inputs); the graph's
+only edge out of block 0 is `terminate`.  The real Cancun machine, for every environment
+and oracle, runs block 0 from the empty stack and falls through to offset 3, i.e. into
+block 1 — a control transfer that is not an edge of the graph, nor of any refinement of it. -/
+theorem C05_cancun_counterexample (E : Env) (ω : Nat → Word) :
+    let code : List Nat := [0x60, 0x00, 0x5c, 0x60, 0x06, 0x56, 0x5b, 0x00]
+    let bs := Pipeline.blocks code
+    ∃ (anns : List Annotated) (g : Graph) (b0 : Blocks.Block) (a0 : Annotated) (o : Outcome),
+      Pipeline.annotateAll Gen.cancun bs = .ok anns ∧ Setup Gen.cancun bs anns ∧ cfgNew anns = .ok g ∧
+      bs[0]? = some b0 ∧ anns[0]? = some a0 ∧ a0.inputs ≤ ([] : List Word).length ∧
+      b0 = ⟨0, [⟨0x60, [0x00]⟩, ⟨0x5c, []⟩]⟩ ∧
+      g.edges = [(0, .terminate), (1, .badJump), (1, .block 2), (2, .terminate)] ∧
+      execBlock E ω b0.ops b0.offset 0 [] = some .halt ∧
+      execBlockC E ω b0.ops b0.offset 0 [] = some o ∧ o = .fall 3 [ω 1] ∧
+      successor anns o = .block 1 ∧
+      (0, successor anns o) ∉ g.edges ∧
+      ∀ (sat : List BTerm → Bool) (g' : Graph), refine sat g = .ok g' → (0, successor anns o) ∉ g'.edges := by
+  intro code bs
+  have hb : ∀ b ∈ code, b < 256 := by decide
+  have hlen : code.length ≤ 65536 := by decide
+  have hbudget : ∀ b ∈ Pipeline.blocks code, popBudget Gen.cancun b.ops ≤ 65535 := by decide +kernel
+  obtain ⟨anns, h1, hS⟩ := C05_pipeline_setup code hb hlen hbudget
+  have h2 : Pipeline.annotateAll Gen.cancun (Pipeline.blocks code) = .ok _ := rfl
+  rw [h2] at h1
+  injection h1 with h1
+  subst h1
+  have key : ∀ {α β : Prop}, α → (α → β) → α ∧ β := fun a f => ⟨a, f a⟩
+  refine ⟨_, _, _, _, .fall 3 [ω 1], h2, hS, rfl, rfl, rfl, by decide, rfl, rfl, rfl, rfl, rfl, rfl, key ?_ ?_⟩
+  · change (0, Node.block 1) ∉ _
+    decide
+  · intro hne sat g' hr hin
+    exact hne ((refine_subgraph sat _ g' hr).2.subset hin)
 
 end EtkVerif.C05
